@@ -14,6 +14,7 @@ mod dom;
 mod engine;
 mod fgen;
 mod flat;
+mod layout;
 mod gen;
 mod model;
 mod props;
@@ -58,6 +59,7 @@ registry! {
     "C14" => props::c14::C14,
     "C15" => props::c15::C15,
     "C17" => props::c17::C17,
+    "C18" => props::c18::C18,
     "C19" => props::c19::C19,
 }
 
